@@ -77,6 +77,7 @@ class Client:
 def main():
     # partner interpreter: python -m vsim.helper <module> <fd_in> <fd_out>
     mod = importlib.import_module(sys.argv[1])
+    import pyerrors  # noqa: F401  (loaded once; every request is served in a forked child)
     serve(int(sys.argv[2]), int(sys.argv[3]), mod.partner_handler)
 
 
